@@ -61,6 +61,9 @@ type c19Case struct {
 	Name    string `json:"name"`    // -nam value; "" = flag omitted (cim2cas then uses the -cim argument)
 	CimName string `json:"cimname"` // file name of the input (relative, cwd = its directory)
 	Stale   int    `json:"stale"`   // > 0: the output files already exist and hold this many junk bytes
+	// Feed: how the image reaches the tool. 0: a regular file; 1: through a pipe (-cim=/dev/stdin);
+	// 2: in place - the output path is the input path (the tool reads the image, then rewrites the file)
+	Feed int `json:"feed,omitempty"`
 }
 
 func image(c *c19Case) []byte {
@@ -149,17 +152,37 @@ func run(c *c19Case) string {
 	exe := func(tool string, args ...string) ([]byte, string) {
 		cmd := exec.Command(filepath.Join(binDir, tool), args...)
 		cmd.Dir = dir
+		if c.Feed == 1 {
+			cmd.Stdin = bytes.NewReader(img)
+		}
 		out, err := cmd.CombinedOutput()
 		if err != nil {
 			return nil, fmt.Sprintf("%s %v failed: %v: %s", tool, args, err, bytes.TrimSpace(out))
 		}
 		return out, ""
 	}
+	cimArg, binOut, casOut := c.CimName, "out.bin", "out.cas"
+	switch c.Feed {
+	case 1:
+		cimArg = "/dev/stdin"
+	case 2:
+		// in place: work on copies of the image file so that both tools see the original
+		for _, n := range []string{"inplace.bin", "inplace.cas"} {
+			if err := os.WriteFile(filepath.Join(dir, n), img, 0o644); err != nil {
+				return "HARNESS: " + err.Error()
+			}
+		}
+		binOut, casOut = "inplace.bin", "inplace.cas"
+	}
 	// cim2bin
-	if _, m := exe("cim2bin", append([]string{"-cim=" + c.CimName, "-bin=out.bin"}, offArgs...)...); m != "" {
+	binIn := cimArg
+	if c.Feed == 2 {
+		binIn = binOut
+	}
+	if _, m := exe("cim2bin", append([]string{"-cim=" + binIn, "-bin=" + binOut}, offArgs...)...); m != "" {
 		return m
 	}
-	got, err := os.ReadFile(filepath.Join(dir, "out.bin"))
+	got, err := os.ReadFile(filepath.Join(dir, binOut))
 	if err != nil {
 		return "cim2bin wrote no output: " + err.Error()
 	}
@@ -167,17 +190,21 @@ func run(c *c19Case) string {
 		return "cim2bin: " + diff(got, w)
 	}
 	// cim2cas
-	args := append([]string{"-cim=" + c.CimName, "-cas=out.cas"}, offArgs...)
+	casIn := cimArg
+	if c.Feed == 2 {
+		casIn = casOut
+	}
+	args := append([]string{"-cim=" + casIn, "-cas=" + casOut}, offArgs...)
 	name := c.Name
 	if c.Name != "" {
 		args = append(args, "-nam="+c.Name)
 	} else {
-		name = c.CimName
+		name = casIn
 	}
 	if _, m := exe("cim2cas", args...); m != "" {
 		return m
 	}
-	got, err = os.ReadFile(filepath.Join(dir, "out.cas"))
+	got, err = os.ReadFile(filepath.Join(dir, casOut))
 	if err != nil {
 		return "cim2cas wrote no output: " + err.Error()
 	}
@@ -285,6 +312,7 @@ func TestC19(t *testing.T) {
 				c.Name = c.Name[:12]
 			}
 		}
+		c.Feed = rapid.SampledFrom([]int{0, 0, 0, 0, 1, 2}).Draw(t, "feed")
 		if rapid.IntRange(0, 2).Draw(t, "stale") == 0 {
 			c.Stale = rapid.SampledFrom([]int{1, 7, 24, 100000, 70000}).Draw(t, "staleLen")
 		}
@@ -309,6 +337,12 @@ func TestC19(t *testing.T) {
 		}
 		if c.Stale > 0 {
 			col.Label("output-file-existed")
+		}
+		switch c.Feed {
+		case 1:
+			col.Label("image-through-pipe")
+		case 2:
+			col.Label("converted-in-place")
 		}
 		for _, r := range c.Name {
 			if r > 0x7f {
